@@ -11,7 +11,7 @@ RULE = ("explicit-state BFS over histories of stream-cipher contexts: letters pr
         "frontier is empty within 4 blocks + 1 consumed per seek; involution is checked with a second context fed the model ciphertext; "
         "DRG: every sequence of {bytes<N>, fill_bytes<N>(prior), fill_slice(l, prior), u32, u64} to the depth bound against a cursor into "
         "the ChaCha<R>(seed, 0) keystream with prior buffer contents {00.., FF.., pattern}; non-trivial = some call with length > 0"
-        " Also: every DRG request size 0..=140 at cursor 0 and 4 for rounds 8/12/20; the corpus again on the checked-arithmetic, +sse4.1 and native builds.")
+        " Also: every DRG request size 0..=140 at cursor 0 and 4 for rounds 8/12/20; buffer placement: after a first piece of every length class mod 8, a second piece of every length 1..=24 (+30, 63, 64, 65, 130) whose buffer starts at every address offset mod 8 (+8, 16, 33) from a 64-byte boundary, in place and with separate input / output buffers at equal and at different offsets, and the DRG's fill_slice likewise; the corpus again on the checked-arithmetic, +sse4.1 and native builds.")
 ASSUMPTIONS = ["python keystream models as in C03", "DRG u32/u64 are the next 4/8 keystream bytes read big-endian (documented convention of this commit)",
                "content alphabet for keys, nonces, seeds, inputs and prior buffer contents"]
 
@@ -33,7 +33,8 @@ def extra_builds(tier):
 def bounds(tier):
     return {"cipher_tree_depth": 4 if tier == "thorough" else 3, "cipher_graph_bytes_per_seek": 257,
             "cipher_graph_seeks": 2 if tier == "thorough" else 1, "drg_tree_depth": 3,
-            "drg_letters": 58 if tier == "thorough" else 32, "drg_every_size": "0..=140 at cursor 0 and 4, rounds 8/12/20"}
+            "drg_letters": 58 if tier == "thorough" else 32, "drg_every_size": "0..=140 at cursor 0 and 4, rounds 8/12/20",
+            "buffer_address_offsets": list(ALIGNS), "placement_second_piece_lengths": "1..=24, 30, 63, 64, 65, 130", "placement_first_piece": [0, 1, 3, 5, 7, 8, 13, 17]}
 
 
 def validate_models(tier):
@@ -191,6 +192,8 @@ def _own_shards(tier):
             sh.append(("shard_drg", (r, seed)))
     sh.append(("shard_involution", None))
     sh.append(("shard_drg_sizes", None))
+    for v in VARIANTS:
+        sh.append(("shard_align", (v, 20)))
     return sh
 
 
@@ -209,6 +212,44 @@ def shard_drg_sizes(_, tier):
                 exp4 = obs_of(model.keystream(0, 4, n))
                 cases.append(([new, "drg_u32 s0", "drg_fill_slice s0 %s" % (P(prior, 7, n) if n else "h:"), "drg_u64 s0"],
                               ["-", str(int.from_bytes(model.keystream(0, 0, 4), "big")), exp4, str(int.from_bytes(model.keystream((4 + n) // 64, (4 + n) % 64, 8), "big"))], {"n": n}))
+    ck.run(cases, nontrivial=_nt)
+    ck.stats.states += len(cases)
+    return ck.stats
+
+
+ALIGNS = (0, 1, 2, 3, 4, 5, 6, 7, 8, 16, 33)
+
+
+def shard_align(arg, tier):
+    """where the caller's buffers lie in memory: after a first piece of every length class modulo 8 (so that the cached keystream is
+    entered at every offset class), a second piece of every length 1..=24 (and block-crossing ones) in a buffer placed at every
+    address offset modulo 8 (and 8, 16, 33) from a 64-byte boundary - in place, and with separate input / output buffers at
+    different offsets; the DRG's fill_slice the same way"""
+    v, rounds = arg
+    ck = core.Checker(PROPERTY_ID)
+    kl, nl, bits = VARIANTS[v]
+    model = stream.Stream(v, rounds, pat(6, 1, kl), pat(7, 2, nl))
+    new = "cnew s0 %s %d %s %s" % (v, rounds, P(6, 1, kl), P(7, 2, nl))
+    lens = tuple(range(1, 25)) + (30, 63, 64, 65, 130)
+    cases = []
+    for pre in (0, 1, 3, 5, 7, 8, 13, 17):
+        first = ["process_mut s0 %s" % P(5, 0, pre)] if pre else []
+        e1 = [obs_of(stream.xor(pat(5, 0, pre), model.keystream(0, 0, pre)))] if pre else []
+        for a in ALIGNS:
+            for n in lens:
+                exp = obs_of(stream.xor(pat(5, 40, n), model.keystream(pre // 64, pre % 64, n)))
+                cases.append(([new] + first + ["process_mut s0 @%d:%s" % (a, P(5, 40, n))], ["-"] + e1 + [exp], {"a": a}))
+                cases.append(([new] + first + ["process s0 @%d:%s - %d" % (a, P(5, 40, n), a)], ["-"] + e1 + [exp], {"a": a}))
+                cases.append(([new] + first + ["process s0 @%d:%s - %d" % ((a + 3) % 8, P(5, 40, n), a)], ["-"] + e1 + [exp], {"a": a}))
+    if v == "chacha":
+        dm = stream.Stream("chacha", rounds, pat(5, 0, 32), bytes(12))
+        dnew = "drgnew s0 %d %s" % (rounds, P(5, 0, 32))
+        for a in ALIGNS:
+            for n in range(1, 41):
+                cases.append(([dnew, "drg_u32 s0", "drg_fill_slice s0 @%d:%s" % (a, P(1, 7, n))],
+                              ["-", str(int.from_bytes(dm.keystream(0, 0, 4), "big")), obs_of(dm.keystream(0, 4, n))], {"n": n}))
+                cases.append(([dnew, "drg_fill_slice s0 @%d:%s" % (a, P(1, 7, n)), "drg_fill_slice s0 @%d:%s" % ((a + 5) % 8, P(5, 7, 19))],
+                              ["-", obs_of(dm.keystream(0, 0, n)), obs_of(dm.keystream(n // 64, n % 64, 19))], {"n": n}))
     ck.run(cases, nontrivial=_nt)
     ck.stats.states += len(cases)
     return ck.stats
